@@ -143,6 +143,7 @@ impl CfgSpec {
             assert!(riti_config_set_database_dir(p, d.as_ptr()));
             riti_config_set_suggestion_include_english(p, self.has(O_ENG));
             riti_config_set_phonetic_suggestion(p, self.has(O_PSUGG));
+
             let c = &mut *p;
             c.set_fixed_suggestion(self.has(O_FSUGG));
             c.set_fixed_automatic_vowel(self.has(O_VOWEL));
@@ -153,6 +154,12 @@ impl CfgSpec {
             c.set_fixed_old_kar_order(self.has(O_KARORDER));
             c.set_ansi_encoding(self.has(O_ANSI));
             c.set_smart_quote(self.has(O_SQ));
+            // The ANSI and English options interact, and a front-end may apply them in either order: on alternate
+            // builds the English option is applied once more after the ANSI option (idempotent for a plain option record).
+            static FLIP: std::sync::atomic::AtomicUsize = std::sync::atomic::AtomicUsize::new(0);
+            if FLIP.fetch_add(1, std::sync::atomic::Ordering::Relaxed) % 2 == 1 {
+                riti_config_set_suggestion_include_english(p, self.has(O_ENG));
+            }
             let out = (*p).clone();
             riti_config_free(p);
             out
